@@ -730,3 +730,70 @@ def family_long_search():
     out.append(_fam(10, [_g("cz" if k % 3 == 0 else "cx", a, b) for k, (a, b) in enumerate(_LONG_B)], 6, wlo=False, mg=1e12, seed=3,
                     oracle_only=True, oracle_seeds=[]))
     return out
+
+
+def family_fractional_limit():
+    """Unrestricted searches under a NON-INTEGER gamma limit that lies a little above the optimum while its integer part lies below it
+    (floor(M) < optimum <= M), on circuits whose greedy warm start is not optimal (a weak rotation is applied first, a dearer gate then has to
+    be cut; the optimum cuts the rotation instead).  "Gamma limit above the optimum" is a statement about the limit the caller gave, whatever
+    its type: the minimum must be reported as reached and returned.  Optima by construction (kappa of rzz/rxx(t) = 1 + 2|sin t|, of
+    crz(t) = 1 + 2|sin t/2|, cx 3, swap-like 7, wire cut 4).  Controls: the next integer, a fractional limit whose integer part is already
+    above the optimum, a fractional limit below the optimum (only the flag's soundness is demanded there)."""
+    import math
+    a45, a25 = math.asin(0.45), math.asin(0.25)
+    out = []
+    # optimum 2.5667 (cut rzz(0.9)); greedy: gate cut of the cx, 3
+    line = [_g("rzz", 0, 1, params=[0.9]), _g("h", 1), _g("cx", 1, 2)]
+    out += [_fam(3, line, 2, exact=False, mg=2.62, seed=0), _fam(3, line, 2, exact=False, mg=2.97, seed=1),
+            _fam(3, line, 2, exact=False, mg=2.97, wlo=False, seed=2)]
+    # optimum 1.9 * 1.9 = 3.61 (two rotations); greedy: wire cut in front of the swap, 4
+    two = [_g("rxx", 1, 2, params=[a45]), _g("rxx", 1, 2, params=[a45]), _g("swap", 0, 1)]
+    out += [_fam(3, two, 2, exact=False, mg=3.7, seed=3), _fam(3, two, 2, exact=False, mg=3.995, seed=4)]
+    # optimum 2.6829 (cut rzz(1.0)); greedy 4
+    out += [_fam(3, [_g("rzz", 0, 2, params=[1.0]), _g("swap", 1, 2)], 2, exact=False, mg=2.75, seed=5)]
+    # optimum 1.5, limit below 2; gate cuts only and both kinds
+    weak = [_g("rzz", 0, 1, params=[a25]), _g("x", 0), _g("cx", 1, 2)]
+    out += [_fam(3, weak, 2, exact=False, mg=1.6, seed=6), _fam(3, weak, 2, exact=False, mg=1.99, wlo=False, seed=7)]
+    # optimum 1.3973 * 4 = 5.589 (rotation cut, then one wire of the last swap); greedy 7; controlled rotation: 1 + 2 sin(0.35/2) = 1.3482, * 4 = 5.393
+    out += [_fam(4, [_g("swap", 2, 3), _g("rzz", 0, 1, params=[0.2]), _g("swap", 1, 2)], 2, exact=False, mg=5.9, seed=8),
+            _fam(4, [_g("crz", 1, 0, params=[0.35]), _g("swap", 2, 3), _g("iswap", 1, 2)], 2, exact=False, mg=5.5, seed=9)]
+    # controls: the next integer; integer part already above the optimum; limit below the optimum; greedy answer already optimal
+    out += [_fam(3, line, 2, exact=False, mg=3.0, seed=10), _fam(3, two, 2, exact=False, mg=4.4, seed=11),
+            _fam(3, line, 2, exact=False, mg=2.5, seed=12), _fam(3, weak, 2, exact=False, mg=1.45, seed=13),
+            _fam(3, [_g("cx", 0, 1), _g("rzz", 1, 2, params=[0.9])], 2, exact=False, mg=2.6, seed=14)]
+    return out
+
+
+def family_child_order():
+    """Both cut kinds permitted, unrestricted search: an expensive gate (swap, iswap, dcx: kappa 7, dearer than a wire cut, 4) stands where
+    one of its wires can be cut, at a search state of accumulated cost c with 4c < incumbent < 7c (the incumbent is the greedy warm start).
+    The children of that state are then NOT in order of cost — the gate-cut child exceeds the incumbent and is pruned, the single-wire-cut
+    children generated after it do not — and the optimum goes through one of those wire cuts: directly (c = 1), after an earlier non-greedy
+    cheap cut (weak rotation, cx), at width limits 2 and 3, with the wire to cut on either side of the gate.  Controls: the same shapes with
+    cx in place of the expensive gate, room for the whole circuit, and wire cuts not permitted."""
+    import math
+    a25, a45 = math.asin(0.25), math.asin(0.45)
+    out = []
+    # weak rotation in one full block, swap in the other, a swap across: greedy 7, optimum 1.397 * 4 (rotation cut + second wire of the last swap)
+    out.append(_fam(4, [_g("swap", 2, 3), _g("rzz", 0, 1, params=[0.2]), _g("swap", 1, 2)], 2, exact=False, seed=0))
+    out.append(_fam(4, [_g("h", 0), _g("iswap", 3, 2), _g("rzz", 1, 0, params=[0.35]), _g("rx", 1, params=[0.3]), _g("dcx", 1, 2)], 2,
+                    exact=False, seed=1))
+    # first wire of the crossing gate; the rotation first
+    out.append(_fam(4, [_g("crz", 1, 0, params=[0.35]), _g("swap", 2, 3), _g("iswap", 2, 1)], 2, exact=False, seed=2))
+    out.append(_fam(5, [_g("rzz", 2, 4, params=[0.2]), _g("iswap", 1, 3), _g("iswap", 1, 4)], 2, exact=False, seed=3))
+    # the early non-greedy cut is a cx (c = 3): greedy 16 (both wires), optimum 12
+    out.append(_fam(4, [_g("cx", 3, 1), _g("iswap", 2, 1), _g("iswap", 0, 1)], 2, exact=False, seed=4))
+    out.append(_fam(4, [_g("cx", 3, 2), _g("swap", 1, 3), _g("swap", 3, 0)], 2, exact=False, seed=5))
+    # c = 1, width limit 3: greedy cuts a later rotation after wire/gate cuts (6 resp. 6.74), optimum: one wire cut (4) of the expensive gate
+    out.append(_fam(5, [_g("swap", 2, 1), _g("swap", 4, 3), _g("dcx", 3, 1), _g("rxx", 1, 4, params=[a25])], 3, exact=False, seed=6))
+    out.append(_fam(4, [_g("swap", 0, 2), _g("iswap", 0, 3), _g("dcx", 1, 3), _g("rzz", 1, 0, params=[0.35])], 3, exact=False, seed=7))
+    # two early cheap cuts (1.5 * 1.5), then the wire cut: optimum 9, greedy 10.5
+    out.append(_fam(4, [_g("rzz", 2, 0, params=[a25]), _g("iswap", 1, 3), _g("rzz", 3, 2, params=[a25]), _g("swap", 1, 0)], 2, exact=False, seed=8))
+    # longer: gates inside the blocks before the crossing gate
+    out.append(_fam(4, [_g("swap", 3, 1), _g("cz", 3, 1), _g("crz", 1, 3, params=[0.2]), _g("crz", 2, 0, params=[0.2]), _g("dcx", 1, 0)], 2,
+                    exact=False, seed=9))
+    # controls
+    out.append(_fam(4, [_g("cx", 2, 3), _g("rzz", 0, 1, params=[0.2]), _g("cx", 1, 2)], 2, exact=False, seed=10))
+    out.append(_fam(4, [_g("swap", 2, 3), _g("rzz", 0, 1, params=[0.2]), _g("swap", 1, 2)], 3, exact=False, seed=11))
+    out.append(_fam(4, [_g("swap", 2, 3), _g("rzz", 0, 1, params=[0.2]), _g("swap", 1, 2)], 2, wlo=False, exact=False, seed=12))
+    return out
